@@ -246,6 +246,9 @@ func CheckC19(o *Outcome) *vh.Finding {
 	prevAcked := make([]int, nOut)
 	for _, so := range o.Stops {
 		m := so.Metrics
+		if so.MetricsErr != "" {
+			return vh.Fail("metrics:export-fails", "stop %d: the agent's metric gatherer returns an error (the /metrics endpoint answers 500 and no counter can be read): %.600s", so.Gen, so.MetricsErr)
+		}
 		inPass, inDrop := m.Sum("slogagent_input_passed_records_total"), m.Sum("slogagent_input_dropped_records_total")
 		inPassB, inDropB := m.Sum("slogagent_input_passed_record_bytes_total"), m.Sum("slogagent_input_dropped_record_bytes_total")
 		if so.InputDrained && so.OpenLines == 0 {
@@ -291,7 +294,7 @@ func CheckC19(o *Outcome) *vh.Finding {
 			}
 			for k, want := range wantFilteredBySource {
 				parts := strings.SplitN(k, "/", 2)
-				if got := m.Sum("slogagent_process_labelled_records_total", "label=filtered", "key_source="+parts[0], "key_app="+parts[1]); int(got) != want {
+				if got := m.Sum("slogagent_process_labelled_records_total", "label=filtered", "key_source="+parts[0], "key_app="+labelValue(parts[1])); int(got) != want {
 					return vh.Fail("metrics:label-attribution", "stop %d: %d dropped records had source=%s app=%s, the counter with those label values shows %v", so.Gen, want, parts[0], parts[1], got)
 				}
 			}
